@@ -339,7 +339,7 @@ impl<const H: usize> Writer<H> {
         self.writer.get_ref().write_all_at(&zero_header, offset)?;
         self.writer.get_ref().sync_data()?;
         #[cfg(feature = "verif")]
-        crate::verif::point("fsync", crate::verif::fd_of(self.writer.get_ref()), offset);
+        crate::verif::point("fsync:marker", crate::verif::fd_of(self.writer.get_ref()), offset);
 
         Ok(())
     }
